@@ -7,6 +7,7 @@ reference model ``RefStore`` and with a copy taken before the transition.
 from __future__ import annotations
 
 import hashlib
+import os
 from collections import Counter
 
 from mc.core import Acc, Fail, bfs_explore
@@ -23,7 +24,7 @@ ASSUMPTIONS = [
 RULE = {
     "quick": "BFS over all operation histories of depth<=4 (menu of ~38 operations per state) on the real CRNHyperGraph; "
     "state = canonical snapshot; non-trivial = transition that reached a new state",
-    "thorough": "as quick with depth<=5, plus depth 6 on the sub-alphabet without merge/copy/assign_mol, plus a second live "
+    "thorough": "as quick with depth<=5 (depth 6 on the sub-alphabet without merge/copy/assign_mol with VERIF_C15_DEPTH6=1), plus a second live "
     "network that is merged and then edited (aliasing)",
 }
 
@@ -386,7 +387,8 @@ def run(tier, seed):
     depth = 4 if tier == "quick" else 5
     REDUCED = False
     acc = bfs_explore(expand, depth, "history_bfs")
-    if tier != "quick":
+    if tier != "quick" and os.environ.get("VERIF_C15_DEPTH6"):
+        # depth 6 on the reduced alphabet (no merge/copy/assign): ~10 min extra, opt-in
         REDUCED = True
         acc.merge(bfs_explore(expand, 6, "history_bfs_reduced"))
         REDUCED = False
